@@ -371,6 +371,9 @@ func genC14(t *rapid.T) *C14Case {
 			pos++
 		}
 		faultLines = []string{"[No Such Section]", "somekey = 1"}
+		if rapid.Bool().Draw(t, "emptyUnknownSection") {
+			faultLines = faultLines[:1]
+		}
 	}
 	withFault := append(append(append([]string{}, noisy[:pos]...), faultLines...), noisy[pos:]...)
 	c.Faulty = joinLines(t, withFault, crlf)
